@@ -682,6 +682,13 @@ func (c *Ctx) assumeTypeInv(v Term, t types.Type, st *State) {
 		c.assume(inRange(v, t))
 	case SSlice:
 		c.assume(Term{fmt.Sprintf("(and (<= 0 (soff %[1]s)) (<= 0 (slen %[1]s)) (<= (slen %[1]s) (scap %[1]s)) (<= (scap %[1]s) 9223372036854775807) (=> (= (sbase %[1]s) pnil) (= (scap %[1]s) 0)))", v.S), SBool})
+		// machine limit (listed in every evidence file): the Go runtime cannot allocate more
+		// than 2^48 bytes, so a slice whose elements have a size holds fewer than 2^48 of them
+		if t != nil {
+			if sl, ok := types.Unalias(t).Underlying().(*types.Slice); ok && hasSize(sl.Elem()) {
+				c.assume(Term{fmt.Sprintf("(<= (scap %s) 281474976710656)", v.S), SBool})
+			}
+		}
 		if st != nil {
 			c.assume(Term{fmt.Sprintf("(< (rootid (sbase %s)) %s)", v.S, st.alloc.S), SBool})
 		}
@@ -704,6 +711,26 @@ func (c *Ctx) assumeTypeInv(v Term, t types.Type, st *State) {
 }
 
 func st0(bool) *State { return nil }
+
+// hasSize: the type certainly occupies at least one byte (everything except empty structs and
+// arrays of them / of length zero; type parameters are not assumed to have a size)
+func hasSize(t types.Type) bool {
+	switch u := types.Unalias(t).Underlying().(type) {
+	case *types.Basic, *types.Pointer, *types.Slice, *types.Map, *types.Chan, *types.Signature, *types.Interface:
+		_, isTP := types.Unalias(t).(*types.TypeParam)
+		return !isTP
+	case *types.Struct:
+		for i := 0; i < u.NumFields(); i++ {
+			if hasSize(u.Field(i).Type()) {
+				return true
+			}
+		}
+		return false
+	case *types.Array:
+		return u.Len() > 0 && hasSize(u.Elem())
+	}
+	return false
+}
 
 func (c *Ctx) structTypeInv(v Term, t types.Type, st *types.Struct, _ *State, depth int) {
 	for i := 0; i < st.NumFields(); i++ {
